@@ -7,6 +7,14 @@
 // responses). Every step is emitted with RemoteAddr(), the decoded RRC records the EUT emitted
 // (type, destination, size, cookie) and whether Read returned a payload, for comparison with
 // coq/theories/Rrc/C15Conn.v and for the implementation-side monitors in checks/c15.py.
+//
+// Records are identified by (epoch, sequence number). Besides the records written after the
+// handshake the pool holds every protected record the peer emitted DURING the handshake that the
+// harness did not deliver (directed "stale" scenarios withhold the first datagram that carries a
+// record of the application epoch: the first epoch-3 record in DTLS 1.3, the first transmission of
+// the Finished in DTLS 1.2), and in DTLS 1.3 the peer can update its keys, after which undelivered
+// records of the superseded epoch are still in the pool. Such records are later delivered from a
+// NEW source address: they are authentic and not replays, but not the newest record.
 package dtls
 
 import (
@@ -24,15 +32,19 @@ import (
 	"github.com/pion/dtls/v3/pkg/protocol/recordlayer"
 )
 
-func c15Establish(t *testing.T, ccfg, scfg *dtlsConfig) *vLab {
+// handshake under a delivery policy; returns the datagrams that were delivered, in delivery order
+func c15Establish(t *testing.T, ccfg, scfg *dtlsConfig, policy vPolicy) (*vLab, []vDatagram) {
 	t.Helper()
 	lab := newLab(t, ccfg, scfg)
+	var delivered []vDatagram
+	lab.Pump.Policy = policy
+	lab.Pump.OnDeliver = func(d vDatagram) { delivered = append(delivered, d) }
 	lab.Pump.run(lab.bothDone, 200*time.Second)
 	if !lab.established() {
 		t.Fatalf("handshake failed: client=%v server=%v", lab.Client.Err, lab.Server.Err)
 	}
 
-	return lab
+	return lab, delivered
 }
 
 // decoded view of one protected DTLS 1.2 record, opened with the RECEIVER's keys (pure)
@@ -126,6 +138,7 @@ func c15Open(rx *Conn, raw []byte, cidLen int) c15Plain {
 // a genuine datagram written by the peer, kept back by the harness
 type c15PoolRec struct {
 	Data    []byte
+	Epoch   int
 	Seq     uint64
 	Kind    string // app | chal | resp | other
 	Cookie  uint64
@@ -135,15 +148,23 @@ type c15PoolRec struct {
 	Uses    int
 }
 
+// one record of an emitted datagram, as the peer's parser sees it
+type c15EmitRec struct {
+	HdrCT int    `json:"hdr_ct"`
+	Prot  bool   `json:"prot"` // protected record (epoch > 0 / DTLS 1.3 ciphertext)
+	CID   string `json:"cid"`
+}
+
 type c15Emit struct {
-	Type   string `json:"type"` // chal | resp | drop | app | other
-	To     string `json:"to"`
-	Size   int    `json:"size"`
-	Cookie uint64 `json:"cookie"`
-	HdrCT  int    `json:"hdr_ct"`
-	CID    string `json:"cid"`
-	Data   []byte `json:"-"`
-	Fwd    bool   `json:"-"`
+	Type   string       `json:"type"` // chal | resp | drop | app | ack | other (by the first record)
+	To     string       `json:"to"`
+	Size   int          `json:"size"`
+	Cookie uint64       `json:"cookie"`
+	HdrCT  int          `json:"hdr_ct"`
+	CID    string       `json:"cid"`
+	Recs   []c15EmitRec `json:"recs"`
+	Data   []byte       `json:"-"`
+	Fwd    bool         `json:"-"`
 }
 
 type c15Step struct {
@@ -151,13 +172,15 @@ type c15Step struct {
 	Now       uint64    `json:"now"`
 	From      string    `json:"from,omitempty"`
 	Rec       int       `json:"rec"` // pool index (deliver)
+	Epoch     int       `json:"epoch"`
 	Seq       uint64    `json:"seq"`
 	Kind      string    `json:"rkind,omitempty"`
 	Cookie    uint64    `json:"rcookie"`
 	CID       *string   `json:"rcid"`
 	Tamper    string    `json:"tamper,omitempty"`
 	Bytes     int       `json:"bytes"`
-	RAddr     string    `json:"raddr"` // RemoteAddr() after the step
+	RAddr     string    `json:"raddr"`  // RemoteAddr() after the step
+	REpoch    int       `json:"repoch"` // the EUT's remote (read) epoch after the step
 	Emits     []c15Emit `json:"emits"`
 	Delivered bool      `json:"delivered"`
 	ReadOK    bool      `json:"read_ok"` // the payload Read returned is the delivered record's
@@ -176,7 +199,8 @@ type c15Case struct {
 	LocalCID string    `json:"local_cid"`
 	PeerCID  string    `json:"peer_cid"` // the ID the EUT must put on what it sends
 	WSize    int       `json:"wsize"`
-	Pre      []uint64  `json:"pre"`
+	Pre      [][2]uint64 `json:"pre"`     // protected records (epoch, seq) delivered to the EUT during the handshake
+	REpoch0  int       `json:"repoch0"` // the EUT's remote epoch after the handshake
 	Steps    []c15Step `json:"steps"`
 	Script   string    `json:"script"`
 	Err      string    `json:"err,omitempty"`
@@ -216,11 +240,27 @@ func (r *c15Runner) drain() (fromEUT, fromPeer []vDatagram) {
 	return fromEUT, fromPeer
 }
 
+// the records of one datagram as the receiving connection's own splitter sees them
+func c15Split(rx *Conn, data []byte) [][]byte {
+	recs, err := rx.unpackDatagram(data)
+	if err != nil || len(recs) == 0 {
+		return [][]byte{data}
+	}
+
+	return recs
+}
+
 func (r *c15Runner) classifyEUT(ds []vDatagram) []c15Emit {
 	out := []c15Emit{}
 	for _, d := range ds {
-		p := c15Open(r.peer.Conn, d.Data, r.lePeer)
+		recs := c15Split(r.peer.Conn, d.Data)
+		p := c15Open(r.peer.Conn, recs[0], r.lePeer)
 		e := c15Emit{To: d.To, Size: len(d.Data), HdrCT: p.HdrCT, CID: vHex(p.CID), Data: d.Data, Type: "other"}
+		for _, raw := range recs {
+			q := c15Open(r.peer.Conn, raw, r.lePeer)
+			prot := q.Epoch > 0 || (len(raw) > 0 && protocol.IsDTLS13Ciphertext(protocol.ContentType(raw[0])))
+			e.Recs = append(e.Recs, c15EmitRec{HdrCT: q.HdrCT, Prot: prot, CID: vHex(q.CID)})
+		}
 		if p.OK {
 			switch {
 			case p.CT == int(protocol.ContentTypeApplicationData):
@@ -244,7 +284,16 @@ func (r *c15Runner) classifyEUT(ds []vDatagram) []c15Emit {
 }
 
 func (r *c15Runner) poolFromPeer(ds []vDatagram, tamper string, sent []byte) {
+	var raws [][]byte
 	for _, d := range ds {
+		if tamper != "" {
+			raws = append(raws, d.Data) // one application record whose layout the EUT's splitter may refuse
+		} else {
+			raws = append(raws, c15Split(r.eut.Conn, d.Data)...)
+		}
+	}
+	for _, raw := range raws {
+		d := vDatagram{Data: raw}
 		cidLen := r.leEUT
 		p := c15Open(r.eut.Conn, d.Data, cidLen)
 		if tamper == "nocid" || (tamper == "wrongcid" && r.leEUT == 0) {
@@ -255,7 +304,7 @@ func (r *c15Runner) poolFromPeer(ds []vDatagram, tamper string, sent []byte) {
 			}
 			p = c15Open(r.eut.Conn, d.Data, n)
 		}
-		rec := &c15PoolRec{Data: d.Data, Seq: p.Seq, Kind: "other", Tamper: tamper}
+		rec := &c15PoolRec{Data: d.Data, Epoch: p.Epoch, Seq: p.Seq, Kind: "other", Tamper: tamper}
 		if p.HdrCT == int(protocol.ContentTypeConnectionID) {
 			s := vHex(p.CID)
 			rec.CID = &s
@@ -269,7 +318,7 @@ func (r *c15Runner) poolFromPeer(ds []vDatagram, tamper string, sent []byte) {
 			} else {
 				rec.CID = nil
 			}
-			rec.Kind, rec.Payload = "app", ""
+			rec.Kind, rec.Payload, rec.Epoch = "app", "", r.epoch
 			r.pool = append(r.pool, rec)
 
 			continue
@@ -294,8 +343,8 @@ func (r *c15Runner) poolFromPeer(ds []vDatagram, tamper string, sent []byte) {
 				continue // never delivered: an alert would end the connection
 			}
 		}
-		if !p.OK || p.Epoch != r.epoch {
-			continue // not usable as a protected record of the current epoch
+		if !p.OK || p.Epoch < 1 {
+			continue // not a protected record the EUT's keys open
 		}
 		r.pool = append(r.pool, rec)
 	}
@@ -364,6 +413,7 @@ func (r *c15Runner) peerWriteRRC(mt protocol.ReturnRoutabilityCheckMessageType, 
 func (r *c15Runner) observe(st *c15Step, fromEUT []vDatagram, expectPayload string) {
 	st.Now = r.now()
 	st.RAddr = r.eut.Conn.RemoteAddr().String()
+	st.REpoch = int(dtlsstate.CommonState(r.eut.Conn.state).RemoteEpoch())
 	st.Emits = r.classifyEUT(fromEUT)
 	reads := r.eut.reads()
 	if len(reads) > r.reads {
@@ -382,7 +432,7 @@ func (r *c15Runner) deliver(i int, from string) {
 	fromEUT, fromPeer := r.drain()
 	_ = fromPeer
 	st := c15Step{
-		Op: "deliver", From: from, Rec: i, Seq: rec.Seq, Kind: rec.Kind, Cookie: rec.Cookie, CID: rec.CID,
+		Op: "deliver", From: from, Rec: i, Epoch: rec.Epoch, Seq: rec.Seq, Kind: rec.Kind, Cookie: rec.Cookie, CID: rec.CID,
 		Tamper: rec.Tamper, Bytes: len(rec.Data), OpenOK: pre.OK, OpenSeq: pre.Seq,
 	}
 	r.observe(&st, fromEUT, rec.Payload)
@@ -492,6 +542,125 @@ func c15DirectedLate(r *c15Runner, rng *vRand, at time.Duration) {
 	r.deliver(next, "cand1")
 }
 
+// the peer updates its sending keys (DTLS 1.3): its KeyUpdate record is delivered to the EUT from the
+// peer's own address (a logged step), the EUT's ACK is handed back, and the peer writes in the next
+// epoch from then on
+func (r *c15Runner) peerKeyUpdate() {
+	if finish := r.peerKeyUpdateBegin(); finish != nil {
+		finish()
+	}
+}
+
+// first half: KeyUpdate written and delivered, the EUT's ACK still on its way (the peer keeps writing
+// in the old epoch until `finish` hands it the ACK)
+func (r *c15Runner) peerKeyUpdateBegin() (finish func()) {
+	done := make(chan error, 1)
+	go func() { done <- r.peer.Conn.UpdateKeys(context.Background(), KeyUpdateOptions{}) }()
+	n0 := len(r.pool)
+	_, fromPeer := r.drain()
+	r.poolFromPeer(fromPeer, "", nil)
+	ku := -1
+	for i := n0; i < len(r.pool); i++ {
+		if r.pool[i].Kind == "hs" {
+			ku = i
+		}
+	}
+	if ku < 0 {
+		r.res.Err = "key update: no KeyUpdate record seen"
+
+		return nil
+	}
+	e0 := len(r.emits)
+	r.deliver(ku, r.peer.Name)
+	acks := append([]*c15Emit(nil), r.emits[e0:]...)
+
+	return func() {
+		for _, e := range acks {
+			if e.Type == "ack" {
+				r.forward(e, r.eut.Name)
+			}
+		}
+		synctest.Wait()
+		select {
+		case err := <-done:
+			if err != nil {
+				r.res.Err = "key update: " + err.Error()
+			}
+		default:
+			r.res.Err = "key update: not acknowledged"
+		}
+		r.epoch++
+	}
+}
+
+// Directed scenario "the first record of the epoch arrives last": during the handshake the harness
+// withheld the first datagram of the peer that carried a record of the application epoch (DTLS 1.3:
+// its first epoch-3 record; DTLS 1.2: the first transmission of its Finished, epoch 1 sequence 0; the
+// handshake completed through the retransmission). Three newer records are delivered from the peer's
+// own address, then the withheld record from cand1: it is authentic and no replay, but not the newest
+// record, so nothing may be sent to cand1. Positive control: a really newest record from cand1
+// afterwards starts a challenge (when IDs and RRC are in use).
+func c15DirectedStale0(r *c15Runner, rng *vRand) {
+	var stale []int
+	for i, p := range r.pool {
+		if p.Epoch == r.epoch && p.Seq == 0 {
+			stale = append(stale, i)
+		}
+	}
+	if len(stale) == 0 {
+		r.res.Err = "stale0: no withheld first record of the application epoch"
+
+		return
+	}
+	for i := 0; i < 3 && r.res.Err == ""; i++ {
+		r.peerWrite("", rng)
+		r.deliver(len(r.pool)-1, r.peer.Name)
+	}
+	for _, i := range stale {
+		r.deliver(i, "cand1")
+	}
+	r.eutSend()
+	r.peerWrite("", rng)
+	r.deliver(len(r.pool)-1, "cand1")
+}
+
+// Directed scenario "a record of the superseded epoch arrives last" (DTLS 1.3): two records of epoch 3
+// are delivered; the peer starts a key update and, while the EUT's ACK is on its way, writes once more
+// in epoch 3 - that record is kept back; the ACK arrives, two epoch-4 records are delivered from the
+// peer's own address; then the kept epoch-3 record (highest sequence number of its epoch, so the
+// newest OF ITS EPOCH) arrives from cand1: nothing may be sent to cand1. Positive control: a newest
+// epoch-4 record from cand1 afterwards starts a challenge.
+func c15DirectedOldEpoch(r *c15Runner, rng *vRand) {
+	for i := 0; i < 2 && r.res.Err == ""; i++ {
+		r.peerWrite("", rng)
+		r.deliver(len(r.pool)-1, r.peer.Name)
+	}
+	finish := r.peerKeyUpdateBegin()
+	if finish == nil || r.res.Err != "" {
+		return
+	}
+	n0 := len(r.pool)
+	r.peerWrite("", rng)
+	kept := len(r.pool) - 1
+	if len(r.pool) != n0+1 || r.pool[kept].Epoch != r.epoch {
+		r.res.Err = "oldepoch: no record of the old epoch after the KeyUpdate " + r.res.Err
+
+		return
+	}
+	finish()
+	for i := 0; i < 2 && r.res.Err == ""; i++ {
+		r.peerWrite("", rng)
+		r.deliver(len(r.pool)-1, r.peer.Name)
+	}
+	if r.res.Err != "" {
+		return
+	}
+	r.deliver(kept, "cand1")
+	r.eutSend()
+	r.peerWrite("", rng)
+	r.deliver(len(r.pool)-1, "cand1")
+}
+
 func c15Gen(n int) func() []byte {
 	if n < 0 {
 		return nil
@@ -500,7 +669,11 @@ func c15Gen(n int) func() []byte {
 	return RandomCIDGenerator(n)
 }
 
-func c15Run(t *testing.T, rng *vRand, suite CipherSuiteID, v13, noRRC bool, lenClient, lenServer int, eutName string, nOps int, directed time.Duration) c15Case {
+// mode: "" random script | "late" (late path_response, `directed` = when) | "stale0" (the peer's first
+// record of the application epoch is withheld during the handshake and shows up later from a new
+// address) | "oldepoch" (DTLS 1.3: a record of the epoch superseded by a key update shows up later
+// from a new address)
+func c15Run(t *testing.T, rng *vRand, suite CipherSuiteID, v13, noRRC bool, lenClient, lenServer int, eutName string, nOps int, mode string, directed time.Duration) c15Case {
 	t.Helper()
 	ccfg, scfg := vPSKPair(suite)
 	if v13 {
@@ -510,7 +683,39 @@ func c15Run(t *testing.T, rng *vRand, suite CipherSuiteID, v13, noRRC bool, lenC
 	}
 	ccfg.ConnectionIDGenerator = c15Gen(lenClient)
 	scfg.ConnectionIDGenerator = c15Gen(lenServer)
-	lab := c15Establish(t, ccfg, scfg)
+	peerName, cfgLenEUT := "client", lenServer
+	if eutName == "client" {
+		peerName, cfgLenEUT = "server", lenClient
+	}
+	if cfgLenEUT < 0 || lenClient < 0 || lenServer < 0 {
+		cfgLenEUT = 0 // connection IDs are negotiated only when both sides have a generator
+	}
+	var policy vPolicy
+	if mode == "stale0" {
+		// the first datagram of the peer that carries a record of the application epoch never arrives
+		withheld := false
+		policy = func(d vDatagram) (vAction, int) {
+			if withheld || d.From != peerName || len(d.Data) == 0 {
+				return vPass, 0
+			}
+			hit := false
+			if v13 {
+				hit = protocol.IsDTLS13Ciphertext(protocol.ContentType(d.Data[0])) && d.Data[0]&0x03 == 3
+			} else {
+				for _, ri := range vParseDatagram(d.Data, cfgLenEUT) {
+					hit = hit || (ri.CT >= 0 && ri.Epoch == 1)
+				}
+			}
+			if hit {
+				withheld = true
+
+				return vDrop, 0
+			}
+
+			return vPass, 0
+		}
+	}
+	lab, delivered := c15Establish(t, ccfg, scfg, policy)
 	defer lab.close()
 	r := &c15Runner{t: t, lab: lab, eut: lab.peer(eutName), peer: lab.other(eutName), v13: v13, epoch: 1}
 	variant := fmt.Sprintf("suite%04x", uint16(suite))
@@ -544,33 +749,30 @@ func c15Run(t *testing.T, rng *vRand, suite CipherSuiteID, v13, noRRC bool, lenC
 	}
 	r.leEUT = len(ec.LocalConnectionIDForInboundRecords())
 	r.lePeer = len(dtlsstate.CommonState(r.peer.Conn.state).LocalConnectionIDForInboundRecords())
-	// epoch-1 sequence numbers the EUT accepted during the handshake
-	for _, d := range lab.Net.since(0) {
+	// protected records the EUT was handed during the handshake, in delivery order
+	res.Pre = [][2]uint64{}
+	gotIdx := map[int]bool{}
+	for _, d := range delivered {
+		gotIdx[d.Idx] = true
 		if d.From != r.peer.Name {
 			continue
 		}
-		if v13 {
-			recs, err := r.eut.Conn.unpackDatagram(d.Data)
-			if err != nil {
-				continue
-			}
-			for _, raw := range recs {
-				if len(raw) > 0 && protocol.IsDTLS13Ciphertext(protocol.ContentType(raw[0])) {
-					if p := c15Open13(r.eut.Conn, raw); p.OK && p.Epoch == r.epoch {
-						res.Pre = append(res.Pre, p.Seq)
-					}
-				}
-			}
-
-			continue
-		}
-		for _, ri := range vParseDatagram(d.Data, r.leEUT) {
-			if ri.Epoch == 1 {
-				res.Pre = append(res.Pre, ri.Seq)
+		for _, raw := range c15Split(r.eut.Conn, d.Data) {
+			if p := c15Open(r.eut.Conn, raw, r.leEUT); p.OK && p.Epoch >= 1 {
+				res.Pre = append(res.Pre, [2]uint64{uint64(p.Epoch), p.Seq})
 			}
 		}
 	}
+	res.REpoch0 = int(ec.RemoteEpoch())
 	synctest.Wait()
+	// what the peer emitted during the handshake and the harness did not deliver stays available
+	var undelivered []vDatagram
+	for _, d := range lab.Net.since(0) {
+		if d.From == r.peer.Name && !gotIdx[d.Idx] {
+			undelivered = append(undelivered, d)
+		}
+	}
+	r.poolFromPeer(undelivered, "", nil)
 	r.cur = lab.Net.count()
 	// wire size of an RRC record of this endpoint: one path_drop to the active address
 	if res.Neg {
@@ -594,10 +796,23 @@ func c15Run(t *testing.T, rng *vRand, suite CipherSuiteID, v13, noRRC bool, lenC
 		time.Second - 1, time.Second, time.Second + 1, 1001 * time.Millisecond, 2 * time.Second,
 	}
 	script := ""
-	if directed > 0 {
+	switch mode {
+	case "late":
 		c15DirectedLate(r, rng, directed)
 		res.Script = fmt.Sprintf("late-response@%s", directed)
 		res.Variant += "-directed"
+
+		return res
+	case "stale0":
+		c15DirectedStale0(r, rng)
+		res.Script = "first-record-of-epoch-withheld"
+		res.Variant += "-stale0"
+
+		return res
+	case "oldepoch":
+		c15DirectedOldEpoch(r, rng)
+		res.Script = "old-epoch-record-after-key-update"
+		res.Variant += "-oldepoch"
 
 		return res
 	}
@@ -614,6 +829,10 @@ func c15Run(t *testing.T, rng *vRand, suite CipherSuiteID, v13, noRRC bool, lenC
 		}
 		choice := rng.intn(100)
 		switch {
+		case v13 && choice >= 98:
+			// the peer updates its sending keys; undelivered records of the old epoch stay in the pool
+			r.peerKeyUpdate()
+			script += "K"
 		case len(open) > 0 && choice < 30:
 			e := open[rng.intn(len(open))]
 			r.forward(e, r.eut.Name)
@@ -691,6 +910,7 @@ func TestVerifC15E2E(t *testing.T) {
 		lc, ls   int
 		eut      string
 		n        int
+		mode     string
 		directed time.Duration
 	}
 	var jobs []job
@@ -703,7 +923,7 @@ func TestVerifC15E2E(t *testing.T) {
 		for _, lc := range lens {
 			for _, ls := range lens {
 				for _, eut := range names {
-					jobs = append(jobs, job{suites[rng.intn(len(suites))], rep%2 == 1, false, lc, ls, eut, 20 + rng.intn(40), 0})
+					jobs = append(jobs, job{suites[rng.intn(len(suites))], rep%2 == 1, false, lc, ls, eut, 20 + rng.intn(40), "", 0})
 				}
 			}
 		}
@@ -711,7 +931,7 @@ func TestVerifC15E2E(t *testing.T) {
 		// exceeds three times a small record (Reserve refuses, Cancel path)
 		for _, p := range [][2]int{{-1, 4}, {4, -1}, {-1, -1}, {1, 120}, {120, 1}, {120, 120}, {0, 120}} {
 			for _, eut := range names {
-				jobs = append(jobs, job{suites[rng.intn(len(suites))], rep%2 == 1, false, p[0], p[1], eut, 20 + rng.intn(40), 0})
+				jobs = append(jobs, job{suites[rng.intn(len(suites))], rep%2 == 1, false, p[0], p[1], eut, 20 + rng.intn(40), "", 0})
 			}
 		}
 	}
@@ -719,7 +939,7 @@ func TestVerifC15E2E(t *testing.T) {
 	for rep := 0; rep < reps; rep++ {
 		for _, p := range [][2]int{{4, 4}, {1, 8}, {8, 0}, {0, 4}} {
 			for _, eut := range names {
-				jobs = append(jobs, job{suites[rng.intn(len(suites))], rep%2 == 1, true, p[0], p[1], eut, 20 + rng.intn(40), 0})
+				jobs = append(jobs, job{suites[rng.intn(len(suites))], rep%2 == 1, true, p[0], p[1], eut, 20 + rng.intn(40), "", 0})
 			}
 		}
 	}
@@ -737,15 +957,32 @@ func TestVerifC15E2E(t *testing.T) {
 				p := [][2]int{{4, 4}, {1, 8}, {8, 1}, {4, 1}, {8, 8}}[rng.intn(5)] // both sides receive an ID
 				jobs = append(jobs, job{
 					suite: suites[rng.intn(len(suites))], v13: v13, lc: p[0], ls: p[1],
-					eut: names[rng.intn(2)], directed: at,
+					eut: names[rng.intn(2)], mode: "late", directed: at,
 				})
 			}
 		}
 	}
+	// directed: stale records from a new address (first record of the epoch withheld during the
+	// handshake, both versions and roles; record of the epoch superseded by a key update, DTLS 1.3),
+	// with IDs and RRC, with IDs only, and without IDs
+	for rep := 0; rep < dreps; rep++ {
+		for _, eut := range names {
+			for _, v13 := range []bool{false, true} {
+				p := [][2]int{{4, 4}, {1, 8}, {8, 1}, {8, 8}}[rng.intn(4)] // both sides receive an ID
+				jobs = append(jobs, job{suite: suites[rng.intn(len(suites))], v13: v13, lc: p[0], ls: p[1], eut: eut, mode: "stale0"})
+				if v13 {
+					jobs = append(jobs, job{v13: true, lc: p[1], ls: p[0], eut: eut, mode: "oldepoch"})
+				}
+			}
+		}
+		q := [][2]int{{4, 4}, {-1, -1}}[rep%2]
+		jobs = append(jobs, job{suite: suites[rng.intn(len(suites))], norrc: q[0] > 0, lc: q[0], ls: q[1], eut: names[rep%2], mode: "stale0"})
+		jobs = append(jobs, job{v13: true, norrc: q[0] > 0, lc: q[0], ls: q[1], eut: names[rep%2], mode: "oldepoch"})
+	}
 	for _, j := range jobs {
 		j := j
 		var res c15Case
-		vBubble(t, func(t *testing.T) { res = c15Run(t, rng, j.suite, j.v13, j.norrc, j.lc, j.ls, j.eut, j.n, j.directed) })
+		vBubble(t, func(t *testing.T) { res = c15Run(t, rng, j.suite, j.v13, j.norrc, j.lc, j.ls, j.eut, j.n, j.mode, j.directed) })
 		out.emit(res)
 	}
 }
